@@ -270,8 +270,8 @@ def run_entry(repo, entry, t, full_output, method=None, session=None):
     summ["scipy.integrate.ode"] = lambda f, jac=None: CallingOde(world, f, jac)
     summ["integrate.ode"] = summ["scipy.integrate.ode"]
 
-    def odeint(func, y0, tgrid, args=(), Dfun=None, col_deriv=0, full_output=0, tfirst=False, **k):
-        ts = list(tgrid)
+    def odeint(func, y0, t, args=(), Dfun=None, col_deriv=0, full_output=0, tfirst=False, **k):
+        ts = list(t)
         y0l = [float(v) for v in y0]
         first = (ts[0], NumArr(list(y0l))) if tfirst else (NumArr(list(y0l)), ts[0])
         call(func, *first)
